@@ -921,9 +921,9 @@ namespace bloch::compiler {
         if (!check(TokenType::Semicolon)) {
             bool isFinal = match(TokenType::Final);
 
-            if (check(TokenType::Int) || check(TokenType::Long) || check(TokenType::Float) ||
-                check(TokenType::Boolean) || check(TokenType::Char) || check(TokenType::String) ||
-                check(TokenType::Bit) || check(TokenType::Qubit)) {
+            // a declaration as anywhere else: annotated ('@tracked qubit q'), of a primitive or
+            // of a class type ('P p = new P()') - not only the primitive keywords
+            if (check(TokenType::At) || isTypeAhead()) {
                 initializer = parseVariableDeclaration(isFinal, false);
             } else {
                 if (isFinal) {
